@@ -473,7 +473,7 @@ def judge (q a : List String) : Verdict :=
         let d := flush d
         if d.s.crashed then
           .monfail "the implementation aborts (xbt_assert in CommImpl::start: endpoint host is off) instead of reporting the failure; the model predicts this abort"
-        else .disagree "implementation crashed, model did not"
+        else .monfail "the implementation crashes or hangs (no assertion of the modelled functions is involved)"
       else if d.s.crashed then .disagree "model predicts an assertion failure, implementation went on"
       else .ok
 
